@@ -6,6 +6,7 @@
    PrincipalOrResourceConstraint::display / ActionConstraint (ast/policy.rs, ast/annotation.rs).
    The printer produces the exact text (spacing included); it is compared with to_string() by
    string equality in the check. *)
+From Coq Require Import String.
 From Cedar Require Export Unescape.
 Open Scope N_scope.
 
